@@ -11,6 +11,8 @@ import (
 	_ "verifharness/adapter"
 	_ "verifharness/immunity"
 	_ "verifharness/crash"
+	_ "verifharness/conc"
+	_ "verifharness/stress"
 	_ "verifharness/shardid"
 )
 
